@@ -11,20 +11,20 @@ CONSTANTS TypeSet, Pres
 NameLens == IF "NAMES" \in DOMAIN IOEnv THEN JsonDeserialize(IOEnv.NAMES) ELSE [x \in {} |-> 0]
 NameLenOf(t) == LET k == Key(Norm(t)) IN IF k \in DOMAIN NameLens THEN NameLens[k] ELSE 0
 
-TS == CASE TypeSet = "small1" -> Types1Small
-        [] TypeSet = "quick1" -> Types1Quick
-        [] TypeSet = "full1"  -> Types1Full
-        [] TypeSet = "small2" -> Types2Small
-        [] TypeSet = "tiny"   -> {Vec(ZPad), G(Vec(U32)), Option(StringT), DE, ZEP, Array(3, ZA16)}
+TS == TypesOf(TypeSet)
 
-CasesOf(t) ==
-  LET vs == Values(t)
-      nl == NameLenOf(t)
-  IN {Case(t, vs[i], "pub", nl, 0, -1, 0) : i \in 1..Len(vs)}
-     \cup {Case(t, vs[i], "body", 0, p, -1, 0) : i \in 1..Len(vs), p \in Pres}
-Cases == UNION {CasesOf(t) : t \in TS}
+\* The initial choice is written with nested quantifiers rather than as membership in a set
+\* of case records: TLC would have to build and sort that set (minutes for 3*10^4 records).
+ChooseCase ==
+  \E t \in TS :
+    LET vs == Values(t)
+        k == Key(Norm(t))
+        nl == IF k \in DOMAIN NameLens THEN NameLens[k] ELSE 0
+    IN \E i \in 1..Len(vs) :
+         \/ case = Case(t, vs[i], "pub", nl, 0, -1, 0)
+         \/ \E p \in Pres : case = Case(t, vs[i], "body", 0, p, -1, 0)
 
-Init == SysInit(Cases)
+Init == ChooseCase /\ SysInitRest
 Next == SysNext
 Spec == Init /\ [][Next]_vars
 ====
